@@ -57,6 +57,15 @@ CLAIMED = {
              "decimal components are observed only, within tolerance.",
         design="DESIGN §8 C11",
         technique="Lean 4 proof (linear arithmetic over Int) + model/implementation correspondence"),
+    "C18": dict(
+        text="Theorems: the (hours, minutes) split of get_local_time_zone is exact for every whole-minute offset in Int "
+             "(60h+m = offset/60, |m|<60, both parts carry the offset's sign; Python floor division and divisor-signed "
+             "modulus modelled with Int.fdiv/fmod), the DST choice, the shape of the three text forms, and the Unix-epoch "
+             "conversions (corollaries of C01/C04: instant = epoch + n; seconds_since = instant - epoch) for all n, all "
+             "offsets, all modes. The OS zone data are parameters (patched in the harness; exhaustive over every "
+             "whole-minute offset within +-24 h in the thorough tier).",
+        design="DESIGN §8 C18",
+        technique="Lean 4 proof + model/implementation correspondence with the OS zone data patched"),
     "C03": dict(
         text="Theorems over the Lean model: the six conversions are total on valid dates, produce valid dates and "
              "preserve the Spec day number (so all round trips are identities), for every year in Int and all four "
